@@ -362,21 +362,38 @@ package fiber
 //@   assumes lock-free: !held(app.mutex)
 //@   loop 2
 //@     invariant app-kept: !held(app.mutex) && app.config.CaseSensitive == old(app.config.CaseSensitive) && app.config.StrictRouting == old(app.config.StrictRouting)
+//@     invariant [C02 C03 C01] constraint-data-as-declared: dataAsDeclared(last(parseRoute).segs, parsedRaw.segs)
 //@   loop 3
 //@     invariant app-kept: !held(app.mutex) && app.config.CaseSensitive == old(app.config.CaseSensitive) && app.config.StrictRouting == old(app.config.StrictRouting)
+//@     invariant [C02 C03 C01] constraint-data-as-declared: dataAsDeclared(last(parseRoute).segs, parsedRaw.segs)
 //@     invariant use-route-kept: route.use && route.Method == "USE"
 // C01: the ONE invariant of a route that dispatch rests on (registeredAs, zz_contracts_verif.go, C01 block), with its
 // witness; the clauses after it (pretty-is-normal-form ... root-flag) are its parts, kept under their own names (root-flag
 // is stronger). addPrefixToRoute establishes the same invariant for the clones of mounted routes. (Stated first: an
 // obligation is assumed once asserted, so a change that breaks a part fails HERE and under the part's own name.)
-//@   atcall (*App).addRoute: [C01] route-as-registered: pathRaw == rooted(old(pathRaw)) && arg2.Path == pathRaw && registeredAs(app, arg2, pathPretty)
+// C02: the constraints the matcher will check say what the pattern AS DECLARED says - data and custom-constraint names
+// in the case of the registered pattern, not folded (dataAsDeclared, zz_contracts_c02_verif.go). Carried through the two
+// loops as an invariant and stated before the route invariant, so that it fails under its own name.
+// (The stored parser is named last(parseRoute).segs - the result of the second parse, the one of the normal form - and
+// not parsedPretty.segs: the local is read back from memory after the Route literal was filled in, the clause would then
+// speak about two syntactically different terms and its hypothesis would have to be re-derived: 15-20 s instead of 2 s.)
+//@   atcall (*App).addRoute: [C02 C03 C01] stored-parser-is-the-adopted-one: arg2.routeParser.segs == last(parseRoute).segs && parsedRaw.segs == segsOf(pathRaw, epoch)
+//@   atcall (*App).addRoute: [C02 C03 C01] constraint-data-as-declared: dataAsDeclared(last(parseRoute).segs, parsedRaw.segs)
+// C02/C03 (stated before the invariant so that it fails under its own name): the catch-all shortcut is only for a star
+// that is WRITTEN unescaped; `/\*` is the literal path "/*" and is compared as text
+//@   atcall (*App).addRoute: [C02 C03 C01] escaped-star-is-a-literal: arg2.star ==> noEscape(pathPretty) && arg2.path == "/*"
+//@   atcall (*App).addRoute: [C01] route-as-registered: pathRaw == rooted(old(pathRaw)) && arg2.Path == pathRaw && registeredAsDeclared(app, arg2, pathPretty, last(parseRoute).segs, parsedRaw.segs)
 //@   atcall (*App).addRoute: rooted-pattern: pathRaw == rooted(old(pathRaw)) && arg2.Path == pathRaw
 //@   atcall (*App).addRoute: pretty-is-normal-form: normalForm(app.config.CaseSensitive, app.config.StrictRouting, pathRaw, pathPretty)
 //@   atcall (*App).addRoute: parser-of-pretty-path: arg2.routeParser.segs == segsOf(pathPretty, epoch)
 //@   atcall (*App).addRoute: literal-path-unescaped-pretty: arg2.path == unescaped(pathPretty)
 //@   atcall (*App).addRoute: names-of-raw-path: arg2.Params == paramsOf(pathRaw, epoch)
 //@   atcall (*App).addRoute: parser-well-formed: paramCount(pathPretty) <= maxParams ==> wfParser(arg2.routeParser)
-//@   atcall (*App).addRoute: star-flag: arg2.star == (arg2.path == "/*")
+// the wildcard shortcut is for the pattern "/*" as written: `/\*` (escaped star) is the literal path "/*", matched as text
+//@   atcall (*App).addRoute: star-flag: arg2.star == (pathPretty == "/*")
+// C02: the constraints the matcher will check say what the pattern AS DECLARED says - data and custom-constraint names
+// in the case of the registered pattern, not folded - and consult the custom constraints of this application
+//@   atcall (*App).addRoute: [C02 C03] remembers-the-custom-constraints-of-its-app: arg2.customConstraints == app.customConstraints
 //@   atcall (*App).addRoute: root-flag: arg2.root == (arg2.path == "/")
 //@   atcall (*App).addRoute: use-flag: arg2.use == (arg2.Method == "USE")
 // C01 (index transparency, registration side; state-based, no parse names): the first literal of the stored parser - the
